@@ -605,6 +605,61 @@ def judge_compile_forms(rec, allp):
         mgr.default = saved[2]
 
 
+def judge_walk_histories(rec, pname, P):
+    """The design has been walked before it is compiled - by the generic `hdl21.walker.walk`, by a designer's own HierarchyWalker
+    subclass (counting devices, say), by a compile of ANOTHER design that shares its leaf module, or by the same PDK's compile of an
+    unmapped-only copy: the compile afterwards does what it does on a design never walked."""
+    import hdl21 as h
+    import hdl21.walker as hw
+    from hdl21.primitives import Mos, MosType
+
+    class Counter(hw.HierarchyWalker):
+        def __init__(self):
+            self.n = 0
+
+        def visit_primitive_call(self, call):
+            self.n += 1
+            return call
+
+    def fresh_targets():
+        top, leaf = make_design(Mos, {"tp": MosType.NMOS}, f"{pname}:walk-history")
+        P["compile"](top)
+        return {n: type(i.of).__name__ + ":" + getattr(getattr(i.of, "module", None), "name", "?") for n, i in leaf.instances.items()}
+
+    try:
+        want = fresh_targets()
+    except Exception:
+        return  # (this PDK has no default NMOS: judged elsewhere)
+    for history in ("generic-walk", "own-walker", "own-walker-class-walk", "elaborate+walk", "walk-twice"):
+        rec.count("history.walked-before-compile")
+        case = {"kind": "walk-history", "pdk": pname, "history": history}
+        rec.case(key=f"walk:{pname}:{history}", nontrivial=True, sample=case)
+        top, leaf = make_design(Mos, {"tp": MosType.NMOS}, f"{pname}:walk-history")
+        try:
+            if history == "generic-walk":
+                hw.walk(top)
+            elif history == "own-walker":
+                c = Counter()
+                c.visit_elaboratables(top)
+            elif history == "own-walker-class-walk":
+                Counter.walk(top)
+            elif history == "elaborate+walk":
+                h.elaborate(top)
+                hw.HierarchyWalker().visit_elaboratables([top])
+            else:
+                hw.walk(top)
+                hw.walk([top, top])
+            P["compile"](top)
+        except Exception as e:
+            rec.violation(f"compile-raises:{type(e).__name__}", f"[{pname}] compile after {history} raised {type(e).__name__}: {str(e)[:100]}", case=case, pdk=pname)
+            continue
+        got = {n: type(i.of).__name__ + ":" + getattr(getattr(i.of, "module", None), "name", "?") for n, i in leaf.instances.items()}
+        if got != want:
+            diff = {n: (got.get(n), want.get(n)) for n in want if got.get(n) != want.get(n)}
+            rec.violation("mapped-primitive-not-replaced", f"[{pname}] a design that had been walked before ({history}) compiles differently from a fresh one: "
+                                                           f"instance targets (got, fresh) {diff}", case=case, pdk=pname, history=history)
+
+
 def logic_cells():
     out = []
     for pk, mods in (("sky130_hdl21.digital_cells", ("high_density", "high_speed", "low_leakage", "low_power", "low_speed", "medium_speed")),
@@ -670,6 +725,7 @@ def run(ctx, rec):
             judge_triple_then_model(rec, w[1], allp[w[1]])
         elif w[0] == "same-named":
             judge_same_named(rec, w[1], allp[w[1]])
+            judge_walk_histories(rec, w[1], allp[w[1]])
         else:
             judge_triples(rec, w[1], allp[w[1]])
     if ctx.shard == 0:
@@ -701,5 +757,7 @@ def replay(ctx, rec, case):
         judge_triples(rec, case["pdk"], allp[case["pdk"]])
     elif case.get("kind") == "compile-form":
         judge_compile_forms(rec, allp)
+    elif case.get("kind") == "walk-history":
+        judge_walk_histories(rec, case["pdk"], allp[case["pdk"]])
     else:
         judge_cells(rec, [c for c in logic_cells() if c[0] in case.get("cells", [])])
